@@ -17,22 +17,43 @@ func init() {
 // "dies" and a fresh checkpoint.Load on the store must resume every vBucket
 // at a settled position, not beyond the furthest settled one.
 func H_C01_hist() {
+	vNVcur = 2
+	vC01Hist(4)
+}
+
+// H_C01_hist5: five steps over two vBuckets, without the commit-through-context step
+// (with it the space exceeds the 2*10^6 path budget: measured).
+func H_C01_hist5() {
+	vNVcur = 2
+	vC01NoCommit = true
+	vC01Hist(5)
+}
+
+var vC01NoCommit bool
+
+// H_C01_hist3: the same histories over three vBuckets (K=4).
+func H_C01_hist3() {
+	vNVcur = 3
+	vC01Hist(4)
+}
+
+func vC01Hist(K int) {
 	setMerge(true)
-	K := 4
-	if tierThorough() {
-		K = 5
-	}
 	ss := vNewSession()
 	var partial [vNVB]bool
 	ss.fm.writeMask = func(vbID uint16) bool { return !partial[vbID] }
 	for st := 0; st < K; st++ {
-		switch choose("op", 7) {
+		nops := 7
+		if vC01NoCommit {
+			nops = 6
+		}
+		switch choose("op", nops) {
 		case 0:
 			cover("deliver-ack-now")
-			ss.deliverDoc(choose("vb", vNVB), choose("kind", vDocKinds()), true)
+			ss.deliverDoc(choose("vb", vNV()), choose("kind", vDocKinds()), true)
 		case 1:
 			cover("deliver-withhold")
-			ss.deliverDoc(choose("vb", vNVB), choose("kind", vDocKinds()), false)
+			ss.deliverDoc(choose("vb", vNV()), choose("kind", vDocKinds()), false)
 		case 2:
 			n := len(ss.fc.consumed)
 			assume(n > 0)
@@ -41,10 +62,10 @@ func H_C01_hist() {
 			ss.ackIdx(i) // may repeat an acknowledgement, or acknowledge out of order
 		case 3:
 			cover("reserved-key")
-			ss.deliverReserved(choose("vb", vNVB), []byte("_connector:cbgo:x"))
+			ss.deliverReserved(choose("vb", vNV()), []byte("_connector:cbgo:x"))
 		case 4:
 			cover("control-event")
-			ss.deliverControl(choose("vb", vNVB), choose("ckind", vControlKinds()))
+			ss.deliverControl(choose("vb", vNV()), choose("ckind", vControlKinds()))
 		case 6:
 			// the consumer commits (explicit save) through the context of an event it may not have acknowledged
 			n := len(ss.fc.consumed)
@@ -52,14 +73,14 @@ func H_C01_hist() {
 			i := choose("commitidx", n)
 			cover("commit-via-context")
 			var nset [vNVB]int
-			for vb := 0; vb < vNVB; vb++ {
+			for vb := 0; vb < vNV(); vb++ {
 				nset[vb] = len(ss.settled[vb])
 			}
 			before := len(ss.fm.calls)
 			ss.fc.consumed[i].Commit()
 			if len(ss.fm.calls) > before {
 				call := ss.fm.calls[len(ss.fm.calls)-1]
-				for vb := 0; vb < vNVB; vb++ {
+				for vb := 0; vb < vNV(); vb++ {
 					if call.dirty[uint16(vb)] {
 						assert(ss.docSettled(vb, call.state[uint16(vb)], nset[vb]), "a commit stores only positions settled before it (committing is not acknowledging)")
 					}
@@ -68,20 +89,22 @@ func H_C01_hist() {
 		case 5:
 			// a save: rejected, complete, or cut short after a subset of the per-vBucket writes
 			var nset [vNVB]int
-			for vb := 0; vb < vNVB; vb++ {
+			for vb := 0; vb < vNV(); vb++ {
 				nset[vb] = len(ss.settled[vb])
 			}
-			mode := choose("save", 4)
+			// rejected, complete, or only all-but-one vBucket written (crash part-way through the per-vBucket writes)
+			mode := choose("save", 2+vNV())
 			ss.failSave = mode == 0
-			partial[0] = mode == 2
-			partial[1] = mode == 3
+			for vb := 0; vb < vNV(); vb++ {
+				partial[vb] = mode == 2+vb
+			}
 			before := len(ss.fm.calls)
 			ss.s.checkpoint.Save()
 			ss.failSave = false
 			if len(ss.fm.calls) > before {
 				cover("store-called")
 				call := ss.fm.calls[len(ss.fm.calls)-1]
-				for vb := 0; vb < vNVB; vb++ {
+				for vb := 0; vb < vNV(); vb++ {
 					if call.dirty[uint16(vb)] {
 						doc := call.state[uint16(vb)]
 						assert(doc != nil, "dirty vBucket has a document")
@@ -92,7 +115,7 @@ func H_C01_hist() {
 		}
 	}
 	// invariant on the durable store at the (arbitrary) crash point
-	for vb := 0; vb < vNVB; vb++ {
+	for vb := 0; vb < vNV(); vb++ {
 		if doc, ok := ss.fm.store[uint16(vb)]; ok {
 			cover("durable-doc")
 			assert(ss.docSettled(vb, doc, len(ss.settled[vb])), "durable checkpoint names a settled position")
@@ -105,11 +128,11 @@ func H_C01_hist() {
 func vC01Restart(ss *vSession) {
 	s2 := vNewStream(&vfakeConsumer{}, ss.fm)
 	cp := s2.checkpoint.(*checkpoint)
-	cp.vbIds = []uint16{0, 1}
-	cp.client = &vfakeSeqClient{high: [vNVB]uint64{^uint64(0), ^uint64(0)}}
+	cp.vbIds = vAssigned()
+	cp.client = &vfakeSeqClient{high: [vNVB]uint64{^uint64(0), ^uint64(0), ^uint64(0)}}
 	cp.offsetLatestSeqNoInit = vLatestInit(s2.config)
 	offsets, _, _ := cp.Load()
-	for vb := 0; vb < vNVB; vb++ {
+	for vb := 0; vb < vNV(); vb++ {
 		o, ok := offsets.Load(uint16(vb))
 		assert(ok, "restart: every assigned vBucket has a resume position")
 		doc, stored := ss.fm.store[uint16(vb)]
